@@ -183,6 +183,28 @@ fn reductions(c: &Case) -> Vec<Case> {
                 out.push(x);
             }
         }
+        Some(Comp::Set(t)) => {
+            for w in 0..t.wakers.len() {
+                // only wake-ups of indices that are woken more than once can be removed
+                for i in (0..t.wakers[w].len()).rev() {
+                    let idx = t.wakers[w][i].0;
+                    if t.wakers.iter().flatten().filter(|x| x.0 == idx).count() > 1 {
+                        let mut x = c.clone();
+                        if let Some(Comp::Set(tt)) = x.comp.as_mut() {
+                            tt.wakers[w].remove(i);
+                        }
+                        out.push(x);
+                    }
+                }
+            }
+            if !t.stale.is_empty() {
+                let mut x = c.clone();
+                if let Some(Comp::Set(tt)) = x.comp.as_mut() {
+                    tt.stale.pop();
+                }
+                out.push(x);
+            }
+        }
         None => {}
     }
     out
